@@ -9,6 +9,7 @@ import (
 	"hash/fnv"
 	"os"
 	"sort"
+	"strings"
 	"sync"
 )
 
@@ -103,7 +104,14 @@ func (c *Ctx) Sample(v any) {
 	c.mu.Unlock()
 }
 
+// HungPrefix: see hs.HungPrefix.
+const HungPrefix = "WATCHDOG: "
+
 func (c *Ctx) Violate(rule, sig, detail string, cs any) {
+	if strings.Contains(detail, HungPrefix) {
+		c.Inconclusive(rule + ": " + sig + ": " + detail)
+		return
+	}
 	c.mu.Lock()
 	defer c.mu.Unlock()
 	if len(c.Violations) >= 50 {
